@@ -154,7 +154,7 @@ Theorem attrs_after_register_refuted_cert20 :        (* known finding C05-certif
   exists v o n s l st' u, srv_register v o n s l store0 = Ok (st', u) /\ get_attributes (2, 0) st' u = Err.
 Proof.
   exists (1, 2), [97], 1600000000, (SCert CT_X_509 [48; 0]), []. eexists. eexists.
-  split; vm_compute; reflexivity.
+  split; [vm_compute; reflexivity|vm_compute; reflexivity].
 Qed.
 Print Assumptions attrs_after_register_refuted_cert20.
 
@@ -176,9 +176,8 @@ Proof.
   intros v o n s l st st' u v' F He Hl Hn Hm Hr H. unfold get_attributes.
   rewrite (attrs_after_register_l _ _ _ _ _ _ _ _ v' F He Hl Hn Hm H). simpl. unfold client_attrs.
   destruct Hr as [Hr|Hr]; [rewrite Hr; reflexivity|].
-  replace (existsb (fun x : rattr => Nat.eqb (fst (fst x)) A_CTYPE) (expected_attrs v' u n ST_PRE_ACTIVE s l)) with false;
-    [rewrite andb_false_r; reflexivity|].
-  symmetry. apply not_true_is_false. intro X. apply existsb_exists in X. destruct X as [x [Hin Hx]].
+  match goal with |- context [existsb ?f ?l0] => assert (X : existsb f l0 = false); [|rewrite X; rewrite andb_false_r; reflexivity] end.
+  apply not_true_is_false. intro X. apply existsb_exists in X. destruct X as [x [Hin Hx]].
   unfold expected_attrs in Hin.
   repeat (apply in_app_or in Hin; destruct Hin as [Hin|Hin]);
     try (match type of Hin with In _ (if ?b then _ else _) => destruct b; [|contradiction Hin] end).
@@ -188,6 +187,8 @@ Proof.
   all: try (match type of Hin with In _ (indexed ?a ?i ?f ?l) =>
               revert Hin; generalize i; induction l as [|y l' IHl]; intros i0 Hin; simpl in Hin;
               [contradiction Hin|destruct Hin as [Hin|Hin]; [subst x; discriminate Hx|exact (IHl _ Hin)]] end).
+  all: try (match type of Hin with In _ (one _ (option_map _ ?o)) =>
+              destruct o; simpl in Hin; [destruct Hin as [Hin|Hin]; [subst x; discriminate Hx|contradiction Hin]|contradiction Hin] end).
 Qed.
 Print Assumptions attrs_through_client_partial.
 
